@@ -280,7 +280,16 @@ class FIXTester:
         orig_clord_id = cxl_req[FTag.OrigClOrdID]
 
         m = FIXMessage(FMsg.ORDERCANCELREJECT)
-        m[37] = 0
+        # the order's own OrderID, as in its execution reports (0: unknown order)
+        order = self.registered_orders.get(clord_id)
+        if order is None:
+            order = self.registered_orders.get(orig_clord_id)
+        if order is None:
+            m[37] = 0
+        elif order.order_id is not None:
+            m[37] = order.order_id
+        else:
+            m[37] = self._order_ids.get(order.clord_id_root, 0)
         m[11] = clord_id
         m[41] = orig_clord_id
         m[39] = ord_status
